@@ -2,7 +2,9 @@
 Spec: Workspace.tla in history mode - the observable Obs is a function of the current workspace only (there is no
 history argument), so after any sequence of steps (and whatever queries were asked in between) the answers must be those
 of a freshly started analysis.  GEN: TLC simulates histories (8 steps: token edits, truncation, duplication, file
-replacement / emptying / adding, import rewiring, interleaved queries) annotated with the workspace after each step; one
+replacement / emptying / adding / renaming, element insertion / removal, import rewiring, the package graph alone, a second
+dependency with an equally named module, edits delivered in one batch, interleaved queries) annotated with the workspace after
+each step, and enumerates EVERY workspace one damage step from small seeds (taken forwards and backwards); one
 long-lived AnalysisHost receives the changes the way the server builds them and after every step every query at every
 token boundary is compared with a fresh host and with a second fresh host queried in reverse order."""
 import json, os
@@ -33,6 +35,21 @@ def run(out, tier, seed):
     allseeds = ws_common.seeds(out, tier, seed, 12 if tier == "quick" else 60)
     hs = ws_common.histories(out, tier, seed, allseeds, n=(120 if tier == "quick" else 3000))
     s = run_hist(out, hs, seed, "main")
+    # exhaustive single steps: every workspace one damage step from the BFS seeds, forwards (seed -> damaged) and backwards
+    # (damaged -> seed: the error is repaired); quick: alternating, thorough: both directions for every workspace
+    pairs = ws_common.single_step_histories(out, tier, seed, allseeds)
+    one = []
+    for k, (a, b) in enumerate(pairs):
+        fwd = {"hist": [a, dict(b, op={"k": "damage", "f": 0, "i": 0, "x": ""})]}
+        back = {"hist": [dict(b, op={"k": "seed", "f": 0, "i": 0, "x": ""}), dict(a, op={"k": "repair", "f": 0, "i": 0, "x": ""})]}
+        if tier != "quick":
+            one += [fwd, back]
+        else:
+            one.append(fwd if k % 2 == 0 else back)
+    s1 = run_hist(out, one, seed, "single")
+    out.cov["traces_validated_against_impl"] += s1["histories"]
+    out.cov["evaluations"] += s1["answers_compared"]
+    out.cov["distinct_nontrivial"] += s1["steps"]
     # the big configuration: 140 filler modules force the 128-entry parse LRU to evict
     big = hs[:(10 if tier == "quick" else 200)]
     s2 = run_hist(out, big, seed, "big", filler=140)
